@@ -1497,6 +1497,8 @@ def run(ctx):
     # the SOLUTION grid as an ordered sequence: descending / permuted node numbering (specs/PDESolGrid.tla)
     from cuqiverif import c18_solgrid
     counts["solgrid"] = c18_solgrid.run_part(ctx, cuqi)
+    from cuqiverif import c18_timeseq
+    counts["timeseq"] = c18_timeseq.run_part(ctx, cuqi)
     ctx.observe("cases_by_kind", counts)
     ctx.observe("seq_behaviours", {"emitted": len(seqs), "replayed": len(chosen), "sampled": sampled,
                                    "by_length": {str(n): sum(1 for c in chosen if len(c["hist"]) == n)
@@ -1541,6 +1543,9 @@ def replay(ctx, case):
     if case.get("kind") == "model":
         return run(ctx)
     cuqi = _pde_mod()
+    if case.get("kind") == "timeseq":
+        from cuqiverif import c18_timeseq
+        return c18_timeseq.run_part(ctx, cuqi, only=case["key"])
     if case.get("kind") == "solgrid":
         from cuqiverif import c18_solgrid
         return c18_solgrid.run_part(ctx, cuqi, only=c18_solgrid.skey(case["c"]))
